@@ -432,7 +432,10 @@ func oracleC15(res *Result, c *Case) {
 		comp := strings.TrimSuffix(ev.Message[len(head):], "\n(check the extra data payloads)")
 		lines := strings.Split(comp, "\n")
 		// a composition line may not contain newlines: one line per layer
-		if len(lines) != len(layers) {
+		if !regularRecipe(c.Rec) {
+			// a safe detail or type name with newlines spreads over several lines: the
+			// per-line relation is checked on regular strings, the exact message by the tie
+		} else if len(lines) != len(layers) {
 			res.fail(c, "C15", fmt.Sprintf("%s: %d composition lines for %d layers", st.Name, len(lines), len(layers)), "C15:composition-count")
 		} else {
 			for i, l := range layers {
@@ -484,22 +487,21 @@ func oracleC15(res *Result, c *Case) {
 			}
 		}
 		// error types extra: one line per layer, innermost first, "type (family::ext)"
+		// (compared as a whole: a mark extension may itself contain newlines, e.g. a domain)
 		types, _ := extras["error types"].(string)
-		tl := strings.Split(strings.TrimSuffix(types, "\n"), "\n")
-		if len(tl) != len(layers) {
-			res.fail(c, "C15", fmt.Sprintf("%s: %d type lines for %d layers", st.Name, len(tl), len(layers)), "C15:types-count")
-		} else {
-			for i, l := range layers {
-				sd := errbase.GetSafeDetails(l)
-				fm := "*"
-				if sd.OriginalTypeName != sd.ErrorTypeMark.FamilyName {
-					fm = sd.ErrorTypeMark.FamilyName
-				}
-				want := fmt.Sprintf("%s (%s::%s)", sd.OriginalTypeName, fm, sd.ErrorTypeMark.Extension)
-				if got := tl[len(layers)-1-i]; got != want {
-					res.fail(c, "C15", fmt.Sprintf("%s: type line %q, want %q", st.Name, clipLen(got, 120), clipLen(want, 120)), "C15:types-line")
-				}
+		var wantTypes strings.Builder
+		for i := len(layers) - 1; i >= 0; i-- {
+			sd := errbase.GetSafeDetails(layers[i])
+			fm := "*"
+			if sd.OriginalTypeName != sd.ErrorTypeMark.FamilyName {
+				fm = sd.ErrorTypeMark.FamilyName
 			}
+			fmt.Fprintf(&wantTypes, "%s (%s::%s)\n", sd.OriginalTypeName, fm, sd.ErrorTypeMark.Extension)
+		}
+		if types != wantTypes.String() {
+			d := firstDiff(types, wantTypes.String())
+			res.fail(c, "C15", fmt.Sprintf("%s: the error types extra is not one 'type (family::ext)' line per layer, innermost first (differs at byte %d: %q vs %q)",
+				st.Name, d, near(types, d), near(wantTypes.String(), d)), "C15:types-lines")
 		}
 	}
 	// nil error: nothing
